@@ -78,7 +78,9 @@ def run_case(g, H):
                 held_back = scripts[-1]          # this script joins the dependency only after a first save
             dep = H.HTMLDependency(d["name"], d["version"], source=source,
                                    script=[{"src": f} for f in (scripts[:-1] if held_back else scripts)],
-                                   stylesheet=[{"href": f} for f in links], all_files=d["allfiles"])
+                                   stylesheet=[{"href": f} for f in links], all_files=d["allfiles"],
+                                   # (head content travels with the dependency; it holds no link / script element)
+                                   head=H.tags.meta(name="from-" + d["name"], content="c") if seq in ("other_place_first", "json_roundtrip") else None)
             if held_back:
                 late.append((dep, held_back))
             deps.append(dep)
